@@ -78,8 +78,12 @@ pub(super) fn parse(mut s: &str) -> Result<Genotype, ParseError> {
 }
 
 fn next_allele<'a>(s: &mut &'a str) -> &'a str {
-    let (t, rest) = match s.chars().skip(1).position(is_phasing_indicator) {
-        Some(i) => s.split_at(i + 1),
+    let (t, rest) = match s
+        .char_indices()
+        .skip(1)
+        .find(|&(_, c)| is_phasing_indicator(c))
+    {
+        Some((i, _)) => s.split_at(i),
         None => s.split_at(s.len()),
     };
 
@@ -95,7 +99,12 @@ fn is_phasing_indicator(c: char) -> bool {
 fn parse_first_allele(s: &str) -> Result<(Option<usize>, Option<Phasing>), allele::ParseError> {
     use super::allele::{parse_phasing, parse_position};
 
-    match parse_phasing(&s[..1]) {
+    let phasing_result = s
+        .get(..1)
+        .ok_or(allele::ParseError::InvalidPhasing)
+        .and_then(parse_phasing);
+
+    match phasing_result {
         Ok(phasing) => {
             let position = parse_position(&s[1..])?;
             Ok((position, Some(phasing)))
